@@ -7,7 +7,8 @@ Expression trees (tuples):
     ("u", "not"|"neg", x)
     ("b", op, l, r)   op in INT_OPS (int x int -> int), CMP_OPS (int x int -> bool), BOOL_OPS (bool x bool -> bool)
 `broad` trees (outside the Lean fragment; the reference value comes from this module) additionally:
-    ("str", text)  ("bin", bits)  ("real", text)  ("const", "PI"|"CONST_E"|"UNKNOWN"|"?")  and the operator div
+    ("str", text)  ("bin", bits)  ("real", text)  ("const", "PI"|"CONST_E"|"UNKNOWN"|"?")
+    ("typeof", "SCHEMA.TYPE")  = `'SCHEMA.TYPE' IN TYPEOF(SELF)`  and the operator div
 
     b = gen(rng, idx, …)    -> Body
     b.express()             -> EXPRESS source
@@ -44,6 +45,8 @@ def express_of(t):
         return t[1]
     if k == "const":
         return t[1]
+    if k == "typeof":
+        return "('" + t[1] + "' IN TYPEOF(SELF))"
     if k == "u":
         return "(" + ("NOT " if t[1] == "not" else "-") + express_of(t[2]) + ")"
     op = {**INT_OPS, **CMP_OPS, **BOOL_OPS, **BROAD_INT_OPS}[t[1]]
@@ -144,8 +147,13 @@ class Body:
     def __init__(self, name, ent, ints, bools, derived, rules, broad=False):
         self.name, self.ent, self.ints, self.bools, self.derived, self.rules, self.broad = name, ent, ints, bools, derived, rules, broad
 
+    supers = ()      # [(entity, its supertype | None), …] declared before `ent`; `ent` is then a subtype of the last one
+
     def express(self):
-        out = [f"SCHEMA {self.name};", f"ENTITY {self.ent};"]
+        out = [f"SCHEMA {self.name};"]
+        for n, sup in self.supers:
+            out += [f"ENTITY {n}" + (f" SUBTYPE OF ({sup})" if sup else "") + ";", "END_ENTITY;"]
+        out.append(f"ENTITY {self.ent}" + (f" SUBTYPE OF ({self.supers[-1][0]})" if self.supers else "") + ";")
         out += [f"  {a} : INTEGER;" for a in self.ints] + [f"  {a} : BOOLEAN;" for a in self.bools]
         if self.derived:
             out.append("DERIVE")
@@ -160,7 +168,9 @@ class Body:
         return self.express()
 
     def copy(self):
-        return Body(self.name, self.ent, list(self.ints), list(self.bools), list(self.derived), list(self.rules), self.broad)
+        b = Body(self.name, self.ent, list(self.ints), list(self.bools), list(self.derived), list(self.rules), self.broad)
+        b.supers = self.supers
+        return b
 
     def lines(self):
         """for `m_c18 expr`: one line per derived attribute / rule: `<ints,> <bools,> | <prefix tokens>`"""
@@ -251,6 +261,12 @@ def fixed_bodies():
                                                 ("d3", "REAL", ("real", "1.23456789")), ("d4", "REAL", ("real", "0.1"))], [], broad=True))
     out.append(Body("fx_const", "e", ["a"], [], [("d1", "REAL", ("const", "CONST_E")), ("d2", "REAL", ("const", "PI")),
                                                  ("d3", "LOGICAL", ("const", "UNKNOWN")), ("d4", "INTEGER", ("const", "?"))], [], broad=True))
+    # TYPEOF: names qualified by the schema, every supertype included (fx_typeof.e is a subtype of mid, mid of root)
+    b = Body("fx_typeof", "e", ["a"], [], [("d1", "BOOLEAN", ("typeof", "FX_TYPEOF.E")), ("d2", "BOOLEAN", ("typeof", "FX_TYPEOF.MID")),
+                                           ("d3", "BOOLEAN", ("typeof", "FX_TYPEOF.ROOT")), ("d4", "BOOLEAN", ("typeof", "FX_TYPEOF.NOPE")),
+                                           ("d5", "BOOLEAN", ("typeof", "E"))], [], broad=True)
+    b.supers = [("root", None), ("mid", "root")]
+    out.append(b)
     return out
 
 
